@@ -42,10 +42,15 @@ WellShaped(ch) == /\ \A i \in 1..Len(ch) : (i = 1 => ch[i].st \in FirstStatuses)
 RECURSIVE Urls(_, _)
 Urls(ch, u) == IF ch = <<>> THEN <<u>> ELSE <<u>> \o Urls(Tail(ch), IF Resolvable(Head(ch).ref) THEN Resolve(u, Head(ch).ref) ELSE u)
 
-VARIABLES chain, maxr, follow, done
-Init == /\ chain \in {c \in Steps : WellShaped(c)} /\ maxr \in MaxRedirs /\ follow \in BOOLEAN /\ done = FALSE
-Next == ~done /\ done' = TRUE /\ UNCHANGED <<chain, maxr, follow>>
-Spec == Init /\ [][Next]_<<chain, maxr, follow, done>>
+\* directly, or with plain http going through a proxy (absolute-form requests: the reference is still resolved against
+\* the URL of the request, never against the proxy's)
+ProxyUrl == [sch |-> "http", host |-> "proxy.test", labels |-> <<"proxy", "test">>, kind |-> "domain", port |-> 3128, user |-> "-",
+       emptypath |-> TRUE, path |-> <<>>, q |-> "-"]
+VARIABLES chain, maxr, follow, viaProxy, done
+Init == /\ chain \in {c \in Steps : WellShaped(c)} /\ maxr \in MaxRedirs /\ follow \in BOOLEAN /\ viaProxy \in BOOLEAN /\ done = FALSE
+        /\ (viaProxy => (follow /\ Len(chain) >= 1))
+Next == ~done /\ done' = TRUE /\ UNCHANGED <<chain, maxr, follow, viaProxy>>
+Spec == Init /\ [][Next]_<<chain, maxr, follow, viaProxy, done>>
 
 urls == Urls(chain, U0)
 nodes == [i \in 1..Len(chain) |-> [url |-> urls[i], status |-> chain[i].st, loc |-> chain[i].ref]]
@@ -55,6 +60,6 @@ AuthorityOK == \A i \in 1..Len(chain) : Resolvable(chain[i].ref) => SameAuthorit
 
 Emit == done => PrintT(<<"REPLAY", ToJson([kind |-> "loop", seed |-> 1,
    req |-> [method |-> "GET", url |-> U0, body |-> [kind |-> "empty", len |-> 0], headers |-> <<>>, params |-> <<>>],
-   settings |-> [follow |-> follow, maxRedir |-> maxr, proxy |-> [disabled |-> FALSE, http |-> NoProxy, https |-> NoProxy, noproxy |-> <<>>]],
+   settings |-> [follow |-> follow, maxRedir |-> maxr, proxy |-> [disabled |-> FALSE, http |-> (IF viaProxy THEN ProxyUrl ELSE NoProxy), https |-> NoProxy, noproxy |-> <<>>]],
    nodes |-> nodes, connect |-> [status |-> 200, valid |-> TRUE]])>>)
 =============================================================================
